@@ -31,7 +31,7 @@ def _plan(tier):
                     continue
                 plan.append(dict(cfg=l1common.grid_cfg(l1common.GRIDS[g], g), solver=sv, strategy="filter", initc=initc, mode="fixed_grid", n=1,
                                  offgrid=(l0.u(F(3, 8)),)))
-    for lay, prof, ctrl, clip, mode in [("ties", "flat", "I_1", False, "save_at"), ("mixed", "valley", "I_7_8", True, "save_at"), ("sparse", "flat", "I_1", False, "every_step")]:
+    for lay, prof, ctrl, clip, mode in [("ties", "flat", "I_1", False, "save_at"), ("mixed", "flat", "I_7_8", True, "save_at"), ("sparse", "flat", "I_1", False, "every_step")]:
         cfg = l0.make_config(lay, prof, ctrl, clip, 1, mode=mode, max_att=8)
         for sv in solvers if tier == "thorough" else ["solver", "mle", "dynamic"]:
             plan.append(dict(cfg=cfg, solver=sv, strategy="filter", initc=(sv == "dynamic"), mode=mode, n=n))
@@ -74,6 +74,82 @@ def _initc_exact_noop(rep, tier):
                     rep.violation(key + ":not-a-noop", f"{prob}: the initial-constraint update changes an exact initial state", {})
 
 
+def _exponential_prior_filter(rep, tier, seed):
+    """exponential priors (dense model): the exact transitions A(h), Q(h) of nilpotent drifts come from TLC
+    (ExpGramExact.tla, as in C09); a textbook extended Kalman filter over them (plain numpy, covariance form, two unequal
+    steps, TS0 and TS1 of an affine problem ODE, damping on/off) must reproduce the filter of the real solver."""
+    import random
+    import warnings
+
+    import jax.numpy as jnp
+    import numpy as np
+    from probdiffeq import ivpsolve
+    from probdiffeq import probdiffeq as pdq
+
+    from harness import exact, priors
+
+    rng = random.Random(2200 + seed)
+    insts = []
+    while len(insts) < (6 if tier == "quick" else 40):
+        inst = priors.expprior_instance(rng)
+        if inst["n"] >= 2 and not inst["ou"]:
+            insts.append(inst)
+    res, dropped, st, gen, fail = exact.eval_instances("ExpGramExact", [priors.expgram_tla(i) for i in insts], invariants=["CheckAndPrint"], batch=6)
+    rep.states += st
+    rep.transitions += gen
+    if fail is not None:
+        rep.violation(f"spec:ExpGramExact:{fail[0].violated}", "ExpGramExact law violated", {"tlc_tail": fail[0].stdout[-2000:]})
+    ssm = pdq.state_space_model_dense()
+    for j, inst in enumerate(insts):
+        if j not in res:
+            continue
+        E = {k: exact.to_float(v) for k, v in res[j].items()}
+        n, d = inst["n"], inst["d"]
+        N = n * d
+        Ms = [np.array(M, dtype=np.float64) for M in inst["Ms"]]
+        prior_ode = pdq.ode_autonomous_order_arbitrary(lambda *us: sum(jnp.asarray(M) @ u for M, u in zip(Ms, us)), num_tcoeffs_in_args=n)
+        lam = jnp.asarray([float(x) for x in inst["lam"]])
+        m0 = np.array([float(rng.randint(-2, 2)) for _ in range(N)])
+        tcoeffs = [jnp.asarray(m0[i * d:(i + 1) * d]) for i in range(n)]
+        C = np.array([[float(rng.randint(-1, 1)) for _ in range(d)] for _ in range(d)])
+        c0 = np.array([float(rng.randint(-1, 1)) for _ in range(d)])
+        problem = pdq.ode(lambda u, /, *, t: jnp.asarray(C) @ u + jnp.asarray(c0) + 0.0 * t)
+        h1, h2 = float(inst["h1"]), float(inst["h2"])
+        grid = jnp.asarray([0.0, h1, h1 + h2])
+        steps = [(E["expm1"], E["gram1"]), (E["expm2"], E["gram2"])]
+        E0 = np.hstack([np.eye(d), np.zeros((d, N - d))])
+        E1 = np.hstack([np.zeros((d, d)), np.eye(d), np.zeros((d, N - 2 * d))])
+        for lin in ("ts0", "ts1"):
+            for damp in (0.0, 0.5):
+                prior = ssm.prior_exponential(prior_ode, tcoeffs, output_scale=lam)
+                constraint = ssm.constraint_ode_ts0(problem) if lin == "ts0" else ssm.constraint_ode_ts1(problem)
+                solver = pdq.solver(strategy=pdq.strategy_filter(), constraint=constraint)
+                with warnings.catch_warnings():
+                    warnings.simplefilter("ignore")
+                    sol = ivpsolve.solve_fixed_grid(solver=solver)(prior, grid=grid, damp=damp)
+                got_m, got_P = (np.asarray(x) for x in sol.solution_full.to_multivariate_normal())
+                m, P = m0.copy(), np.zeros((N, N))
+                want = [(m.copy(), P.copy())]
+                for A, Q in steps:
+                    mp, Pp = A @ m, A @ P @ A.T + Q
+                    if lin == "ts0":
+                        H, b = E1, -(C @ (E0 @ mp) + c0)
+                    else:
+                        H, b = E1 - C @ E0, -c0
+                    S = H @ Pp @ H.T + damp**2 * np.eye(d)
+                    z = H @ mp + b
+                    K = Pp @ H.T @ np.linalg.pinv(S)
+                    m, P = mp - K @ z, Pp - K @ S @ K.T
+                    want.append((m.copy(), P.copy()))
+                rep.traces += 1
+                rep.add_case(("exp-prior-filter", j, lin, damp))
+                wm, wP = np.stack([w[0] for w in want]), np.stack([w[1] for w in want])
+                em, eP = exact.maxerr(got_m, wm), exact.maxerr(got_P, wP)
+                if not (np.all(np.isfinite(got_m)) and em <= 1e-8 and eP <= 1e-8):
+                    rep.violation(f"impl:filter:fixed_grid:exponential-prior:{lin}", f"prior_exponential n={n} d={d} h=({h1},{h2}) damp={damp}: filter differs from the textbook EKF over the exact transitions: mean {em:.2e}, cov {eP:.2e}",
+                                  {"instance": {k: str(v) for k, v in inst.items()}, "lin": lin, "damp": damp})
+
+
 def run(tier: str, seed: int) -> int:
     rep = Report("C02", tier, seed)
     rep.rule = (
@@ -92,6 +168,7 @@ def run(tier: str, seed: int) -> int:
     else:
         rep.extra["kalman_exact"] = False
     _initc_exact_noop(rep, tier)
+    _exponential_prior_filter(rep, tier, seed)
     rep.assumptions = [
         "term equality stands for equality of distributions; the numerics of each operation are decided under C08 (conditional algebra), C09 (prior discretisation), C11 (linearisation)",
         "loss of precision at high order / tiny steps is a floating-point property and not covered by the term algebra",
